@@ -497,7 +497,7 @@ theorem feq_set_scalar (b ign imm : Bool) (item : FieldDecl) (sz : SizeOpts) (v 
         · cases h4; rfl
       subst hu
       rw [dedup_idem]
-      refine ⟨.list ws, .set false (dedup ws), rfl, ?_, ?_, ?_, fun h => by simp [isSetDecl] at h, rfl⟩
+      refine ⟨.list ws, .set false (dedup ws), rfl, ?_, ?_, ?_, fun h => by simp only [isSetDecl] at h; subst h; rfl, rfl⟩
       · simp only [tVal, hne, hnc, Bool.false_eq_true, if_false, pySet, bindE_ok]
         simp only [hany, Bool.false_eq_true, if_false]
       · simp [tnorm]
@@ -640,7 +640,7 @@ theorem feq_set_enum (b ign imm : Bool) (item : FieldDecl) (sz : SizeOpts) (v w 
       rw [dedup_idem]
       have htr : mapE (enumDeser item) xs = .ok ws := by
         rw [mapE_congr xs (fun x _ => enum_deser_eq O opts item x hE)]; exact h1'
-      refine ⟨.list xs, .set false (dedup ws), rfl, ?_, ?_, ?_, fun h => by simp [isSetDecl] at h, rfl⟩
+      refine ⟨.list xs, .set false (dedup ws), rfl, ?_, ?_, ?_, fun h => by simp only [isSetDecl] at h; subst h; rfl, rfl⟩
       · simp only [tVal, hE, if_true, pySet, htr, bindE_ok]
         simp only [hany, Bool.false_eq_true, if_false]
       · simp [tnorm]
